@@ -27,11 +27,12 @@ fn tol_for(w: WClass, weighted: bool) -> f64 {
     }
 }
 
+/// distances and path lengths: purely relative (weights may be of any magnitude)
 fn deq(a: f64, b: f64, tol: f64) -> bool {
     if tol == 0.0 {
         a == b
     } else {
-        approx(a, b)
+        a == b || (a - b).abs() <= 1e-9 * a.abs().max(b.abs())
     }
 }
 
@@ -264,8 +265,11 @@ fn c04_graph(prop: &'static str, case: &GCase, g: &GS, d: &Dense, weighted: bool
             }
         }
     }
+    // path lists for every source of a 500-node graph are gigabytes of strings: above 130 nodes
+    // only distances are requested from all sources at once
+    let heavy = n > 130;
     // multi_source over a subset with a duplicate, all_pairs over everything
-    if n > 0 {
+    if n > 0 && !heavy {
         let mut subset: Vec<usize> = (0..n).filter(|_| rng.chance(1, 2)).collect();
         if subset.is_empty() {
             subset.push(rng.below(n));
@@ -293,6 +297,9 @@ fn c04_graph(prop: &'static str, case: &GCase, g: &GS, d: &Dense, weighted: bool
     }
     for (first_only, with_paths) in [(false, true), (false, false), (true, true)] {
         if !all_paths && !first_only && with_paths {
+            continue;
+        }
+        if heavy && with_paths {
             continue;
         }
         match guard("dijkstra::all_pairs", || dijkstra::all_pairs(g, weighted, None, None, first_only, with_paths)) {
@@ -324,7 +331,7 @@ fn c04_graph(prop: &'static str, case: &GCase, g: &GS, d: &Dense, weighted: bool
 }
 
 fn wclasses_all() -> Vec<WClass> {
-    vec![WClass::Unweighted, WClass::Exact, WClass::Exact, WClass::ExactWide, WClass::Generic, WClass::ZeroContaining]
+    vec![WClass::Unweighted, WClass::Exact, WClass::Exact, WClass::ExactWide, WClass::Generic, WClass::ZeroContaining, WClass::UlpsDecimal, WClass::UlpsTiny]
 }
 
 pub fn run_c04(a: &Args) {
@@ -378,10 +385,18 @@ pub fn run_c04(a: &Args) {
 
 fn centrality_case(rng: &mut Rng, idx: u64, thorough: bool) -> GCase {
     let kinds = kinds8();
-    let wcl = vec![WClass::Unweighted, WClass::Exact, WClass::Exact, WClass::ExactWide, WClass::Generic];
+    let wcl = vec![WClass::Unweighted, WClass::Exact, WClass::Exact, WClass::ExactWide, WClass::Generic, WClass::UlpsDecimal, WClass::UlpsTiny];
     if idx % 250 == 249 {
         // size sweep across powers of two and chunk-size boundaries
         let sizes: &[usize] = if thorough { &[65, 100, 129, 200, 257, 300, 400, 513, 700] } else { &[65, 130, 260, 300] };
+        if rng.chance(1, 4) {
+            // more than 2^24 (sometimes more than 2^64) equally short paths between two nodes
+            ctx::count("reach:n>64");
+            ctx::count("reach:astronomic-path-counts");
+            let k = *rng.pick(&[26usize, 30, 40, 64, 66]);
+            let w = *rng.pick(&[WClass::Unweighted, WClass::Exact]);
+            return diamond_chain(*rng.pick(&kinds), k, w, rng);
+        }
         let n = *rng.pick(sizes);
         let specs = *rng.pick(&kinds);
         let fam: &'static str = *rng.pick(&["gnp_sparse", "tree", "cycle", "grid", "components", "nested_scc"]);
@@ -421,7 +436,12 @@ pub fn run_c05(a: &Args) {
                     continue;
                 }
             }
-            let raw = oracle::betweenness_unscaled(&d, weighted, tol);
+            // ulp-apart weight classes: ties are decided exactly as a label-setting search does
+            let ulps = matches!(case.wclass, WClass::UlpsDecimal | WClass::UlpsTiny) && weighted;
+            if ulps && d.n > 45 {
+                continue;
+            }
+            let raw = if ulps { oracle::betweenness_unscaled_dag(&d, weighted) } else { oracle::betweenness_unscaled(&d, weighted, tol) };
             for normalized in [false, true] {
                 let want = oracle::scale_betweenness(&d, &raw, normalized);
                 ctx::eval(1);
@@ -536,7 +556,7 @@ fn sorted_paths(p: &[Vec<String>]) -> Vec<Vec<String>> {
 
 pub fn run_c08(a: &Args) {
     let kinds = kinds8();
-    let wcl = vec![WClass::Unweighted, WClass::Exact, WClass::Exact, WClass::ExactWide, WClass::Generic, WClass::Generic];
+    let wcl = vec![WClass::Unweighted, WClass::Exact, WClass::Exact, WClass::ExactWide, WClass::Generic, WClass::Generic, WClass::UlpsDecimal, WClass::UlpsTiny];
     let total: u64 = if a.thorough { 12_000 } else { 6_000 };
     for idx in 0..total {
         if !ctx::mine(idx) {
@@ -770,7 +790,7 @@ pub fn run_c08(a: &Args) {
                         match base[t].get(&d.names[s]) {
                             None => fail("single_source", "undirected-reachability-not-symmetric", json!({"u": d.names[s], "v": d.names[t]})),
                             Some(ts) => {
-                                let ok = if exact { ts.distance == st.distance } else { approx(ts.distance, st.distance) };
+                                let ok = if exact { ts.distance == st.distance } else { deq(ts.distance, st.distance, 1e-9) };
                                 if !ok {
                                     fail("single_source", "undirected-distance-not-symmetric", json!({"u": d.names[s], "v": d.names[t], "d_uv": st.distance, "d_vu": ts.distance}));
                                 }
@@ -780,7 +800,7 @@ pub fn run_c08(a: &Args) {
                     for x in 0..n {
                         if let (Some(sx), Some(xt)) = (base[s].get(&d.names[x]), base[x].get(&d.names[t])) {
                             let sum = sx.distance + xt.distance;
-                            if st.distance > sum + 1e-12 * sum.abs().max(1.0) {
+                            if st.distance > sum + 1e-12 * sum.abs() {
                                 fail("single_source", "triangle-inequality", json!({"s": d.names[s], "x": d.names[x], "t": d.names[t], "d_st": st.distance, "d_sx+d_xt": sum}));
                             }
                         }
